@@ -346,13 +346,23 @@ def verify_function(E: Engine, q: str) -> dict:
     if c.gen:
         from .coroutine import verify_generator
         return verify_generator(E, q, c, fn, fr, st, old)
-    outs = E.ex_block(fn.body, st, fr)
+    if q.split("#")[0].endswith(".__init__") and "self" in st.locals:
+        E.under_construction.append(st.locals["self"].z)      # the object being constructed by the function under verification
+    try:
+        outs = E.ex_block(fn.body, st, fr)
+    finally:
+        if q.split("#")[0].endswith(".__init__") and "self" in st.locals:
+            E.under_construction.pop()
     outs = outs + fr.exc
     fr.exc = []
     n_normal = 0
     for o in outs:
         if o.kind in ("ok", "ret"):
             n_normal += 1
+            # vacuity guard: the normal return must not be refutable from the assumptions made on the way
+            from .engine import Obligation
+            E.obligations.append(Obligation(f"{short(q)}:cover:end", list(o.st.pc), z3.BoolVal(True), "cover", q,
+                                            "normal return reachable", "sat", tuple(sorted(E.function_tags(q)))))
             val = o.val if o.kind == "ret" else V(NONE, ty.null)
             check_post(E, fr, c, o.st, old, val, c.ensures, "post", c)
             check_frame(E, fr, c, o.st, old, "frame")
